@@ -26,6 +26,11 @@ def _template(ctx, kind, side, exch, tfs):
         tp = ctx.real('tp', 50, 200)
         ctx.constrain(And(sl < pe, pe < tp) if long else And(sl > pe, pe > tp))
         T = S.make_template(entry=pe, stop=sl, take=tp, name='T1tp', **common)
+    elif kind == 'T1mtp':  # entry at market; stop-loss and take-profit both rest from the next minute on (two fillable orders in one minute)
+        sl = ctx.real('sl', 50, 200)
+        tp = ctx.real('tp', 50, 200)
+        ctx.constrain(And(sl < 99.5, tp > 100.5) if long else And(sl > 100.5, tp < 99.5))
+        T = S.make_template(entry=None, stop=sl, take=tp, name='T1mtp', **common)
     elif kind == 'T7':  # the entry decision depends on visible data
         sl = ctx.real('sl', 50, 200)
         ctx.constrain(sl < 60 if long else sl > 190)
@@ -187,12 +192,13 @@ def _jobs(tier):
     if tier == 'quick':
         add(n=3, t=2, kind='T1', side='long', exch='futures')
         add(n=3, t=1, kind='T7', side='long', exch='futures')
+        add(n=3, t=2, kind='T1mtp', side='long', exch='futures')
         add(n=3, t=1, kind='T7', side='long', exch='futures', warm=2)  # injected warm-up candles (the store is not empty at the first minute)
         add(n=3, t=1, kind='T1', side='long', exch='futures', fast=True, warm=2)
         add(n=6, t=3, kind='T1', side='long', exch='futures', tf='3m', fast=True, sym=[2, 3])  # the first replaced minute may gap
     else:
         for side in ('long', 'short'):
-            for kind in ('T1', 'T1tp', 'T7', 'T5'):
+            for kind in ('T1', 'T1tp', 'T1mtp', 'T7', 'T5'):
                 add(n=3, t=2, kind=kind, side=side, exch='futures')
                 add(n=3, t=1, kind=kind, side=side, exch='futures')
         add(n=3, t=2, kind='T1', side='long', exch='spot')
@@ -207,6 +213,8 @@ def _jobs(tier):
         add(n=6, t=3, kind='T1', side='long', exch='futures', tf='3m', warm=3, sym=[1, 2, 4])
         add(n=3, t=2, kind='T1', side='long', exch='futures', two_symbols=True)
         add(n=4, t=2, kind='T7', side='long', exch='futures', tf='1m', fast=True)
+        add(n=3, t=2, kind='T1mtp', side='long', exch='futures', fast=True)
+        add(n=6, t=3, kind='T1mtp', side='short', exch='futures', tf='3m', fast=True, sym=[1, 2, 3])
     return jobs
 
 
